@@ -15,6 +15,7 @@ import (
 	"github.com/plgd-dev/go-coap/v3/message/pool"
 	"github.com/plgd-dev/go-coap/v3/net/responsewriter"
 	"github.com/plgd-dev/go-coap/v3/udp/client"
+	"github.com/plgd-dev/go-coap/v3/udp/coder"
 )
 
 func init() { props["C05"] = runC05 }
@@ -34,6 +35,39 @@ type c05Ev struct {
 	PLen    int
 	MTok    []byte // token of the replacement message (Beh = msg)
 	Ms      int
+	// what the handler does with the request message itself before it sets the response:
+	// "" (nothing) | rl (re-labels it: SetType(UTyp), SetMessageID(UMID), SetToken(UTok), marshals it - forwarding) |
+	// rel (Hijack, ReleaseMessage) | relw (Hijack, a worker goroutine releases it, the handler waits for the worker)
+	Use  string
+	UTyp int
+	UMID int
+	UTok []byte
+}
+
+// useDesc: the descriptor field of the request use ("" = none)
+func (e c05Ev) useDesc() string {
+	switch e.Use {
+	case "rl":
+		t := fmt.Sprintf("%x", e.UTok)
+		if t == "" {
+			t = "-"
+		}
+		return fmt.Sprintf("rl.%d.%d.%s", e.UTyp, e.UMID, t)
+	case "rel", "relw":
+		return e.Use
+	}
+	return ""
+}
+
+// coqReqHead: constructor (and request use) of the case event of a request
+func (e c05Ev) coqReqHead() string {
+	switch e.Use {
+	case "rl":
+		return fmt.Sprintf("HReqU (URelabel %d %d)", e.UTyp, e.UMID)
+	case "rel", "relw":
+		return "HReqU URelease"
+	}
+	return "HReq"
 }
 
 func c05Hex(s string) []byte {
@@ -71,6 +105,9 @@ func (e c05Ev) desc() string {
 	if e.Beh == "msg" {
 		d += fmt.Sprintf(":%x", e.MTok)
 	}
+	if u := e.useDesc(); u != "" {
+		d = "requ:" + u + ":" + strings.TrimPrefix(d, "req:")
+	}
 	return d
 }
 
@@ -78,6 +115,19 @@ func parseC05Ev(s string) c05Ev {
 	f := strings.Split(s, ":")
 	var e c05Ev
 	atoi := func(x string) int { var v int; fmt.Sscanf(x, "%d", &v); return v }
+	if f[0] == "requ" && len(f) > 2 {
+		u := strings.Split(f[1], ".")
+		switch {
+		case u[0] == "rl" && len(u) == 4:
+			e.Use, e.UTyp, e.UMID = "rl", atoi(u[1]), atoi(u[2])
+			if u[3] != "-" {
+				e.UTok = c05Hex(u[3])
+			}
+		case u[0] == "rel" || u[0] == "relw":
+			e.Use = u[0]
+		}
+		f = append([]string{"req"}, f[2:]...)
+	}
 	switch f[0] {
 	case "age":
 		e.Kind, e.Ms = "age", atoi(f[1])
@@ -143,6 +193,7 @@ func (e c05Ev) coqBeh() string {
 //	rst:  w.Message().SetType(message.Reset)
 func c05Behave(ev c05Ev) func(w *responsewriter.ResponseWriter[*client.Conn], r *pool.Message) {
 	return func(w *responsewriter.ResponseWriter[*client.Conn], r *pool.Message) {
+		c05UseRequest(ev, w, r)
 		switch ev.Beh {
 		case "resp":
 			if ev.PLen > 0 {
@@ -151,7 +202,8 @@ func c05Behave(ev c05Ev) func(w *responsewriter.ResponseWriter[*client.Conn], r 
 				_ = w.SetResponse(codes.Code(ev.RCode), message.TextPlain, nil, ev.ROpts...)
 			}
 		case "msg":
-			m := w.Conn().AcquireMessage(r.Context())
+			// (the context of a received message is the connection's; the request may be gone by now)
+			m := w.Conn().AcquireMessage(w.Conn().Context())
 			m.SetCode(codes.Code(ev.RCode))
 			m.SetToken(ev.MTok)
 			m.ResetOptionsTo(ev.ROpts)
@@ -161,6 +213,41 @@ func c05Behave(ev c05Ev) func(w *responsewriter.ResponseWriter[*client.Conn], r 
 			w.SetMessage(m)
 		case "rst":
 			w.Message().SetType(message.Reset)
+		}
+	}
+}
+
+// c05UseRequest: what the handler does with the request message it was handed, before it sets the response. The
+// message is the handler's while it runs (pool.Message has setters and Hijack for exactly this).
+//
+//	rl:   a forwarding proxy re-labels the request with the numbering of the upstream exchange and serialises it
+//	rel:  the handler takes the request over and gives it back to the pool when it has consumed it
+//	relw: the same through a worker goroutine; the handler waits until the worker is done (a state witness,
+//	      not a delay: the channel is closed after ReleaseMessage returned)
+func c05UseRequest(ev c05Ev, w *responsewriter.ResponseWriter[*client.Conn], r *pool.Message) {
+	switch ev.Use {
+	case "rl":
+		r.SetMessageID(int32(ev.UMID))
+		r.SetType(message.Type(ev.UTyp))
+		if ev.UTok != nil {
+			r.SetToken(ev.UTok)
+		}
+		_, _ = r.MarshalWithEncoder(coder.DefaultCoder) // "sent upstream"
+	case "rel":
+		r.Hijack()
+		_, _ = r.ReadBody()
+		w.Conn().ReleaseMessage(r)
+	case "relw":
+		r.Hijack()
+		done := make(chan struct{})
+		go func() {
+			defer close(done)
+			_, _ = r.ReadBody()
+			w.Conn().ReleaseMessage(r)
+		}()
+		select {
+		case <-done:
+		case <-time.After(10 * time.Second): // watchdog only; returning early cannot create a deviation
 		}
 	}
 }
@@ -185,6 +272,9 @@ func runC05HistoryOn(evs []c05Ev, getMID int32, dtls bool) (string, bool) {
 	for _, e := range evs {
 		if e.Kind == "req" || e.Kind == "drop" || e.Kind == "ping" {
 			mc.avoidMID[e.MID] = true
+		}
+		if e.Kind == "req" && e.Use == "rl" {
+			mc.avoidMID[e.UMID&0xffff] = true // the barrier requests stay away from the handlers' labels, too
 		}
 	}
 	var sb strings.Builder
@@ -289,7 +379,7 @@ func runC05HistoryOn(evs []c05Ev, getMID int32, dtls bool) (string, bool) {
 			}
 			log := mc.takeLog()
 			out := mc.takeOut()
-			fmt.Fprintf(&sb, "HReq %d %d %s %d %s %s %s %s", e.Typ, e.MID, coqBytes(e.Tok), e.Code, coqOpts(e.ReqOpts), e.coqBeh(), coqBool(len(log) > 0), coqWireObs(out))
+			fmt.Fprintf(&sb, "%s %d %d %s %d %s %s %s %s", e.coqReqHead(), e.Typ, e.MID, coqBytes(e.Tok), e.Code, coqOpts(e.ReqOpts), e.coqBeh(), coqBool(len(log) > 0), coqWireObs(out))
 		}
 		if perEventC05 != nil {
 			perEventC05(i, e)
@@ -437,7 +527,7 @@ func runC05Concurrent(reqs []c05Ev, copies []int, getMID int32, dtls bool) (stri
 					o = out // irregular: attribute everything to the first copy so that the mismatch is visible
 				}
 			}
-			fmt.Fprintf(&sb, "HReq %d %d %s %d %s %s %s %s", ev.Typ, ev.MID, coqBytes(ev.Tok), ev.Code, coqOpts(ev.ReqOpts), ev.coqBeh(), coqBool(i < calls), coqWireObs(o))
+			fmt.Fprintf(&sb, "%s %d %d %s %d %s %s %s %s", ev.coqReqHead(), ev.Typ, ev.MID, coqBytes(ev.Tok), ev.Code, coqOpts(ev.ReqOpts), ev.coqBeh(), coqBool(i < calls), coqWireObs(o))
 		}
 	}
 	sb.WriteString("]")
@@ -614,6 +704,59 @@ func genC05HistoryX(rng *Rng, tier string, ext bool) ([]c05Ev, int32) {
 	return evs, getMID
 }
 
+// c05DecorateUse gives (most of) the request events of a history a handler that uses the request message itself:
+// re-labelled (another message ID - random, the ID of another request of the history, an ID next to the connection's own
+// counter - or the same ID; the same or the other request type; sometimes another token), released by the handler, released
+// by a worker. A later copy of a request keeps the use of the earlier one half of the time.
+func c05DecorateUse(rng *Rng, evs []c05Ev, getMID int32) {
+	own := int(uint16(uint32(getMID) - 0x7fff))
+	var mids []int
+	for _, e := range evs {
+		if e.Kind == "req" {
+			mids = append(mids, e.MID)
+		}
+	}
+	byMID := map[int]c05Ev{}
+	for i := range evs {
+		e := &evs[i]
+		if e.Kind != "req" {
+			continue
+		}
+		if prev, ok := byMID[e.MID]; ok && rng.Chance(50) {
+			e.Use, e.UTyp, e.UMID, e.UTok = prev.Use, prev.UTyp, prev.UMID, prev.UTok
+			continue
+		}
+		switch r := rng.Intn(100); {
+		case r < 50:
+			e.Use = "rl"
+			e.UTyp = e.Typ
+			if rng.Chance(35) {
+				e.UTyp = 1 - e.Typ
+			}
+			switch rng.Intn(6) {
+			case 0:
+				e.UMID = e.MID // the label is kept
+			case 1:
+				e.UMID = mids[rng.Intn(len(mids))] // the ID of a(nother) request of the history
+			case 2:
+				e.UMID = (own + 1 + rng.Intn(3)) & 0xffff // what the connection's own counter hands out next
+			case 3:
+				e.UMID = (e.MID + 1) & 0xffff
+			default:
+				e.UMID = rng.Intn(65536)
+			}
+			if rng.Chance(50) {
+				e.UTok = []byte{0xee, byte(rng.U64())}
+			}
+		case r < 68:
+			e.Use = "rel"
+		case r < 85:
+			e.Use = "relw"
+		}
+		byMID[e.MID] = *e
+	}
+}
+
 func runC05(a runArgs) error {
 	e := NewEmitter("C05", "Dedup.Run")
 	e.Preamble = "From GoCoap Require Import Base.Bytes Dedup.Model Dedup.Spec."
@@ -643,6 +786,9 @@ func runC05(a runArgs) error {
 				}
 				seen[ev.MID] = true
 				kinds["beh="+ev.Beh] = true
+				if ev.Use != "" {
+					kinds["use="+ev.Use] = true
+				}
 				if ev.Beh != "none" && ev.Beh != "rst" && ev.RCode == 0 {
 					kinds["beh=empty-code"] = true
 				}
@@ -683,6 +829,12 @@ func runC05(a runArgs) error {
 		bucket := "concurrent"
 		if len(reqs) > 1 {
 			bucket = "concurrent-mixed"
+		}
+		for _, ev := range reqs {
+			if ev.Use != "" {
+				bucket += "-use"
+				break
+			}
 		}
 		if dtls {
 			desc = "dtls#" + desc
@@ -813,6 +965,52 @@ func runC05(a runArgs) error {
 	for c := 0; c < ndtlsConc; c++ {
 		ev, getMID := firstReq(c%2 == 1, false, nil)
 		emitConc([]c05Ev{ev}, []int{2 + rng.Intn(3)}, getMID, true)
+	}
+	// ---- request-use families (drawn after everything else: the streams above are unchanged) ----
+	// the handler owns the request message while it runs; whatever it does with it, the copies are de-duplicated
+	nuse, nuseConc, nuseDtls := 200, 24, 24
+	if a.tier == "thorough" {
+		nuse, nuseConc, nuseDtls = 1500, 150, 200
+	}
+	for c := 0; c < nuse; c++ {
+		evs, getMID := genC05HistoryX(rng, a.tier, c%2 == 1)
+		c05DecorateUse(rng, evs, getMID)
+		emit(evs, getMID)
+	}
+	for c := 0; c < nuseConc; c++ {
+		ev, getMID := firstReq(c%2 == 1, false, nil)
+		one := []c05Ev{ev}
+		for one[0].Use == "" {
+			c05DecorateUse(rng, one, getMID)
+		}
+		emitConc(one, []int{2 + rng.Intn(3)}, getMID, c%6 == 5)
+	}
+	for c := 0; c < nuseDtls; c++ {
+		evs, getMID := genC05HistoryX(rng, "quick", c%2 == 1)
+		c05DecorateUse(rng, evs, getMID)
+		emitOn(evs, getMID, true)
+	}
+	// canonical witnesses: every use x response behaviour x CON/NON; first copy, copies inside the lifetime, one after it
+	for _, typ := range []int{0, 1} {
+		for _, use := range []string{"rl", "rl-typ", "rl-own", "rel", "relw"} {
+			for _, beh := range []string{"none", "resp", "msg", "rst"} {
+				r := c05Ev{Kind: "req", Typ: typ, MID: 4660, Tok: []byte{1, 2, 3, 4}, Code: 1, Beh: beh, RCode: 69, PLen: 6, PSalt: 5, MTok: []byte{0xcc}}
+				if beh == "rst" || beh == "none" {
+					r.RCode, r.PLen, r.PSalt = 0, 0, 0
+				}
+				switch use {
+				case "rl": // forwarded with the same reliability under an upstream ID and token
+					r.Use, r.UTyp, r.UMID, r.UTok = "rl", typ, 9, []byte{0xee, 0xee}
+				case "rl-typ": // forwarded with the other reliability
+					r.Use, r.UTyp, r.UMID = "rl", 1-typ, 40000
+				case "rl-own": // labelled with the ID the connection's own counter hands out next
+					r.Use, r.UTyp, r.UMID = "rl", typ, 0x1000-0x7fff+0x10000+1
+				default:
+					r.Use = use
+				}
+				emit([]c05Ev{r, r, {Kind: "age", Ms: 246000}, r, {Kind: "age", Ms: 2000}, r, r}, 0x1000)
+			}
+		}
 	}
 	return e.Flush(a.out)
 }
